@@ -717,3 +717,33 @@ def extension_only_when_full(ctx):
                           "the count tested against bucket_item_count (%s) is not the count that indexes the array store of the other branch (%s): items are put into "
                           "extension items although the destination array has room (or vice versa)" % (
                               ", ".join(sorted({fn.expr(a_) for (b, x, a_) in gov})), ", ".join(sorted(idx_vars))), fn.where(al), fn=fn)
+
+
+def array_advance_only_outside_extension(ctx):
+    """VHM.iterator-position: an iterator is 'in the extension list' exactly when its `extension` cursor is set - find() positions an iterator on
+    an extension item WITHOUT touching `index`.  operator++ therefore may take the array step (++index) only when `extension` is null; a
+    formulation that decides on `index` alone is correct only if every function that sets `extension` also sets index to the item count."""
+    rid = "VHM.iterator-position"
+    I = V + "iterator::"
+    ext_null = flow.null_want(lambda f, x: f.field_of(x).endswith("iterator::extension") or (f.nodes[x]["k"] == "member" and f.nodes[x].get("leaf") == "extension"))
+    # fallback (b): does find() move index to the item count when it stops on an extension item?
+    find_sets_index = False
+    for fn in ctx.facts.shapes(V + "find"):
+        if len(fn.params) != 1:
+            continue
+        ext_asg = [e for b, i, e, n in fn.events() if n["k"] == "bin" and n["op"] == "=" and fn.field_of(fn.kids(e)[0]).endswith("iterator::extension")]
+        idx_asg = [e for b, i, e, n in fn.events() if n["k"] == "bin" and n["op"] == "=" and fn.field_of(fn.kids(e)[0]).endswith("iterator::index") and
+                   "item_count" in fn.expr(fn.kids(e)[1])]
+        find_sets_index = bool(ext_asg) and all(any(fn.before(i_, x) or fn.before(x, i_) for i_ in idx_asg) for x in ext_asg) and bool(idx_asg)
+    n = 0
+    for fn in flow._shapes(ctx, I + "operator++"):
+        incs = [e for b, i, e, nn in fn.events() if nn["k"] == "un" and nn["op"] == "++" and fn.field_of(fn.kids(e)[0]).endswith("iterator::index")]
+        for e in incs:
+            n += 1
+            ok, path, na = flow.only_via_want(fn, e, ext_null, relicense=False)
+            ctx.check((ok and na > 0) or find_sets_index, rid, I + "operator++#array-step|extension-null", "++index is taken only while the extension cursor is null",
+                      "operator++ takes the array step (++index) without testing the extension cursor, but find() positions an iterator on an extension item and leaves "
+                      "index untouched: ++ on such an iterator stays on the same element (yielded again) and erase(++find(k)) removes k instead of its successor",
+                      fn.where(e), fn=fn, path=flow.describe_path(fn, path) if path else None)
+    if n == 0:
+        ctx.broken.append("vyukov iterator::operator++: no ++index found")
